@@ -3,7 +3,8 @@
    Router/StartupProofs.v.  "Reachable" = reached from the initial state by ANY finite sequence of labels
    (any number of dial starts / completions, releases, idle timers, exchange starts, cancellations and
    Close calls, in any order).  "Returns promptly" is timed by the harness, not proved. *)
-From Mos Require Import Base.Prelude Net.Shutdown Net.ShutdownProofs Router.Startup Router.StartupProofs.
+From Mos Require Import Base.Prelude Net.Shutdown Net.ShutdownProofs Net.ShutdownOwn Net.ShutdownOwnProofs
+  Router.Startup Router.StartupProofs.
 
 (* ------------------------------------------------------------------------------------------------
    Close is total and idempotent: it is always enabled, marks the transport closed, and a second Close
@@ -157,17 +158,115 @@ Theorem C18_doh_close_pinned_refuted : forall fuel, close_calls true fuel (upstr
 Proof. exact close_pinned_diverges. Qed.
 Print Assumptions C18_doh_close_pinned_refuted.
 
-(* every upstream kind built on the two modelled transports (udp, tcp, tcp+pipeline, tls, tls+pipeline) closes
-   in an orderly way: later exchanges fail, no socket stays open, in-flight exchanges fail at Close *)
-Theorem C18_upstream_close_partial : forall k,
-  In k [KUdp; KTcp; KTcpPipeline; KTls; KTlsPipeline] -> up_orderly k = true.
-Proof. exact up_orderly_classic. Qed.
-Print Assumptions C18_upstream_close_partial.
+(* every upstream kind closes in an orderly way: later exchanges fail, no socket stays open, in-flight
+   exchanges fail at Close (the table of Shutdown.v compared with the real upstreams by kind upclose; which
+   parts an upstream owns and closes is the composite model below) *)
+Theorem C18_upstream_close : forall k, up_orderly true k = true.
+Proof. exact up_orderly_all. Qed.
+Print Assumptions C18_upstream_close.
 
-(* full statement (forall k, up_orderly k = true) is false of the code as it is: known findings K6a/K6c/K6d *)
-Theorem C18_upstream_close_refuted : exists k, up_orderly k = false.
-Proof. exists KHttps. reflexivity. Qed.
-Print Assumptions C18_upstream_close_refuted.
+(* the tree before the K6a / K6c / K6d fixes: true for udp/tcp/tls (+pipeline), false for https, h3, quic *)
+Theorem C18_upstream_close_pinned_refuted :
+  (forall k, In k [KUdp; KTcp; KTcpPipeline; KTls; KTlsPipeline] -> up_orderly false k = true) /\
+  up_orderly false KHttps = false /\ up_orderly false KH3 = false /\ up_orderly false KQuic = false.
+Proof. split; [intros k; apply up_orderly_classic|exact up_orderly_refuted]. Qed.
+Print Assumptions C18_upstream_close_pinned_refuted.
+
+(* ------------------------------------------------------------------------------------------------
+   The upstream as a composite of the transports / sockets it owns (Net/ShutdownOwn.v).
+   "Reachable" = reached from uo_new k by ANY sequence of steps of the owned parts (every label of the reuse,
+   pipeline and quic transition systems except their Close, and dial / busy / idle / drop of the library parts)
+   and Close() calls of the upstream, in any order, any number of each. *)
+
+(* Close of the upstream closes EVERY owned part, from any state whatsoever; a second Close changes no part and
+   no effective-close count *)
+Theorem C18_upstream_closes_all_owned : forall k s,
+  length s = length (uo_owned k) ->
+  Forall (fun x => uo_comp_closed (us_comp x) = true) (uo_close k s) /\
+  map us_comp (uo_close k (uo_close k s)) = map us_comp (uo_close k s) /\
+  map us_eff (uo_close k (uo_close k s)) = map us_eff (uo_close k s).
+Proof.
+  intros k s L. split; [exact (uo_close_all_closed k s L)|exact (uo_close_idempotent k s L)].
+Qed.
+Print Assumptions C18_upstream_closes_all_owned.
+
+(* exactly once: in every reachable state, every owned part is closed iff the upstream's Close has been called,
+   and it made its open -> closed transition exactly once however many Close calls there were *)
+Theorem C18_upstream_close_exactly_once : forall k ls s,
+  uo_run k (uo_new k) ls = Some s ->
+  length s = length (uo_owned k) /\
+  forall x, In x s ->
+    uo_comp_closed (us_comp x) = existsb uo_is_close ls /\
+    us_eff x = if existsb uo_is_close ls then 1 else 0.
+Proof.
+  intros k ls s H. destruct (uo_reachable_inv k ls s H) as [L F]. split; [exact L|].
+  intros x Hin. rewrite Forall_forall in F. exact (F x Hin).
+Qed.
+Print Assumptions C18_upstream_close_exactly_once.
+
+(* a Close program closes exactly the parts it names: a part that is not named (and was open) stays open.
+   This is why [uo_close_prog] has to name every owned part - a Close that closes one leg twice and the other
+   never (u.u.Close(); u.u.Close()) leaves the other leg open. *)
+Theorem C18_close_program_exact : forall prog s j x x',
+  nth_error s j = Some x -> nth_error (uo_close_with prog s) j = Some x' ->
+  (uo_comp_closed (us_comp x') = true <-> In j prog \/ uo_comp_closed (us_comp x) = true) /\
+  (~ In j prog -> x' = x).
+Proof.
+  intros prog s j x x' Hx Hx'. split; [exact (uo_close_with_exact prog s j x x' Hx Hx')|].
+  destruct (uo_close_with_spec prog s j x Hx) as (y & Ey & _ & Hout). rewrite Hx' in Ey.
+  inversion Ey; subst y. exact Hout.
+Qed.
+Print Assumptions C18_close_program_exact.
+
+Theorem C18_close_program_covers : forall k,
+  (forall j, j < length (uo_owned k) -> In j (uo_close_prog k)) /\ NoDup (uo_close_prog k).
+Proof. intros k. split; [intros j; apply uo_prog_covers_in|apply uo_prog_nodup]. Qed.
+Print Assumptions C18_close_program_covers.
+
+(* no leak, whole upstream: in every reachable state after Close, every owned part is closed and is a reachable
+   CLOSED state of its own transition system, so the per-transport theorems above hold for each leg:
+   reuse leg - every registered connection is closed, what is still open are returned-not-yet-registered dials
+   (C18_no_leak); pipeline leg - an open connection has a pending closer (C18_no_leak_pipeline); quic - no table
+   connection is open (C18_no_leak_quic); library parts (tracker, quic.Transport, socket) hold nothing. *)
+Theorem C18_upstream_no_leak : forall k ls s,
+  uo_run k (uo_new k) ls = Some s -> existsb uo_is_close ls = true ->
+  length s = length (uo_owned k) /\
+  forall x, In x s ->
+    uo_comp_closed (us_comp x) = true /\ us_eff x = 1 /\
+    match us_comp x with
+    | UcReuse rs =>
+        (exists ls', r_run r_init ls' = Some rs) /\
+        (forall kc, In kc (rs_conns rs) -> rc_open kc = false) /\
+        r_open_count rs = length (filter is_returned (rs_tasks rs))
+    | UcPipe ps =>
+        (exists ls', sdp_run sdp_init ls' = Some ps) /\
+        forall c k0, nth_error (ps_conns ps) c = Some k0 -> pc_open k0 = true ->
+          (pc_closed k0 = true /\ has_stage (ps_tasks ps) (PsCloseB c)) \/
+          (pc_closed k0 = false /\ has_stage (ps_tasks ps) (PsCloseA c))
+    | UcQuic qs =>
+        (exists ls', sdq_run sdq_init ls' = Some qs) /\
+        (forall kc, In kc (sq_conns qs) -> qc_open kc = false) /\
+        sdq_open_count qs = length (filter qd_holds_raw (sq_calls qs))
+    | UcLib l => ul_idle l + ul_busy l = 0
+    end.
+Proof.
+  intros k ls s H Cl. destruct (uo_no_leak k ls s H Cl) as [L F]. split; [exact L|]. intros x Hin.
+  destruct (F x Hin) as (C & E & R). split; [exact C|]. split; [exact E|].
+  pose proof (uo_reachable_parts k ls s H) as P. rewrite Forall_forall in P. specialize (P x Hin).
+  unfold uo_slot_reach in P. destruct (us_comp x); cbn in *; auto.
+Qed.
+Print Assumptions C18_upstream_no_leak.
+
+(* what the harness replays (kind upown: a plan of answered / in-flight exchanges, then Close, Close, each
+   followed by quiescence of the legs) is a
+   schedule of the composite system, so the theorems above apply to every state the correspondence check visits *)
+Theorem C18_plan_refines_composite : forall k mux ps s hs,
+  uo_plan_run k mux (uo_new k) ps [] = Some (s, hs) ->
+  (exists ls, uo_run k (uo_new k) ls = Some (uo_close_settled k s) /\ existsb uo_is_close ls = true) /\
+  (exists ls, uo_run k (uo_new k) ls = Some (uo_close_settled k (uo_close_settled k s)) /\
+              existsb uo_is_close ls = true).
+Proof. exact uo_plan_then_close. Qed.
+Print Assumptions C18_plan_refines_composite.
 
 (* ------------------------------------------------------------------------------------------------
    the quiescent histories the harness replays are schedules of the small-step systems, so the theorems
@@ -292,4 +391,43 @@ Example C18_example_quic_late_dial :
   | Some s => (sq_closed s, sdq_open_count s, sdq_result s 0, sdq_result s 1, sdq_result s 2, length (sq_conns s))
   | None => (false, 99, None, None, None, 0)
   end = (true, 0, Some false, Some false, Some false, 1).
+Proof. vm_compute. reflexivity. Qed.
+
+(* a udp upstream: one answered fallback query (idle TCP connection), one fallback query in flight on a second
+   TCP connection, one UDP query in flight; Close: both legs closed, each exactly once, nothing open, both
+   in-flight exchanges fail, a new exchange fails on either leg; a second Close changes nothing *)
+Example C18_example_udp_owns_two :
+  match uo_plan_run KUdp true (uo_new KUdp) [UoPlTc; UoPlTcMute; UoPlTc; UoPlMute] [] with
+  | Some (s, hs) =>
+      let s1 := uo_close_settled KUdp s in
+      let s2 := uo_close_settled KUdp s1 in
+      (uo_sockets KUdp true s, uo_sockets KUdp false s, map (uo_result s) hs,
+       uo_all_closed s1, uo_all_eff_once s1, uo_sockets KUdp true s1, uo_sockets KUdp false s1,
+       map (uo_result s1) hs, uo_new_fails KUdp s1 0, uo_new_fails KUdp s1 1,
+       (uo_all_closed s2, uo_all_eff_once s2, map us_calls s2))
+  | None => (0, 0, [], false, false, 9, 9, [], false, false, (false, false, []))
+  end = (1, 2, [None; None], true, true, 0, 0, [Some false; Some false], true, true, (true, true, [2; 2])).
+Proof. vm_compute. reflexivity. Qed.
+
+(* the same state closed by a program that names the UDP leg twice and the TCP fallback leg never: the fallback
+   leg stays open with its two connections, its in-flight exchange keeps waiting, a new exchange on it succeeds *)
+Example C18_example_missed_leg :
+  match uo_plan_run KUdp true (uo_new KUdp) [UoPlTc; UoPlTcMute; UoPlTc; UoPlMute] [] with
+  | Some (s, hs) =>
+      let s1 := uo_settle KUdp (uo_close_with [0; 0] s) in
+      (uo_all_closed s1, uo_sockets KUdp true s1, uo_sockets KUdp false s1, map (uo_result s1) hs,
+       uo_new_fails KUdp s1 0, uo_new_fails KUdp s1 1)
+  | None => (true, 0, 0, [], true, true)
+  end = (false, 0, 2, [None; Some false], true, false).
+Proof. vm_compute. reflexivity. Qed.
+
+(* quic: the QuicTransport, the quic.Transport and the UDP socket are all closed, each once *)
+Example C18_example_quic_owns_three :
+  match uo_plan_run KQuic true (uo_new KQuic) [UoPlOk; UoPlMute] [] with
+  | Some (s, hs) =>
+      let s1 := uo_close_settled KQuic s in
+      (uo_sockets KQuic true s, length s1, uo_all_closed s1, uo_all_eff_once s1, uo_sockets KQuic true s1,
+       map (uo_result s1) hs, uo_new_fails KQuic s1 0)
+  | None => (0, 0, false, false, 9, [], false)
+  end = (1, 3, true, true, 0, [Some false], true).
 Proof. vm_compute. reflexivity. Qed.
